@@ -372,37 +372,51 @@ def deriv_priority(rg, d, with_terms=False):
 
 # ------------------------------------------------------------------ R4 reference lexer
 
+UNBOUNDED = 1 << 32
+
+
 def max_width(src, flags=0):
+    """longest theoretical match of a regexp (docs/grammar.md); every unbounded regexp has the same,
+    "infinite", width"""
     import re._parser as sre_parse
-    try:
-        return sre_parse.parse(src, flags).getwidth()[1]
-    except Exception:
-        return None
+    w = sre_parse.parse(src, flags).getwidth()[1]
+    return min(int(w), UNBOUNDED)
 
 
 def lexer_order(terms, gflags=0):
     """documented order: priority desc, max width desc, pattern length desc, name"""
     def key(T):
-        src = T.regex_src() if T.pat[0] == 'x' else None
         if T.pat[0] == 's':
             w = len(T.pat[1])
-            plen = len(T.pat[1])
         else:
             w = max_width(T.pat[1], T.flags(gflags))
-            plen = len(T.pat[1])
-        return (-(T.prio or 0), -w, -plen, T.lexname)
+        return (-(T.prio or 0), -w, -len(T.pat[1]), T.lexname)
     return sorted(terms, key=key)
 
 
 class RefLexer:
-    """terms: list of Term with attribute lexname (token type as lark names it)"""
+    """terms: list of Term with attribute lexname (token type as lark names it).
+    Written from docs/grammar.md: at every position the first terminal in the documented order that
+    matches wins; text matched by a regexp terminal that is exactly a same-priority string terminal
+    (which the regexp can spell) is reported as that string terminal."""
     def __init__(self, terms, ignore_names, gflags=0):
         self.order = lexer_order(terms, gflags)
         self.ignore = set(ignore_names)
         self.gflags = gflags
         self.strs = [T for T in self.order if T.pat[0] == 's']
+        self.keywords = {}      # regexp terminal -> string terminals it can spell (same priority)
+        for T in self.order:
+            if T.pat[0] == 'x':
+                ks = []
+                for S in self.strs:
+                    if (S.prio or 0) != (T.prio or 0):
+                        continue
+                    m = T.compiled(gflags).match(S.pat[1])
+                    if m and m.group(0) == S.pat[1]:
+                        ks.append(S)
+                self.keywords[T.lexname] = ks
 
-    def lex(self, text, allowed=None):
+    def lex(self, text, allowed=None, keep_ignored=False):
         """-> (tokens [(name, value, start, end)], fail_pos|None)"""
         pos = 0
         out = []
@@ -421,17 +435,13 @@ class RefLexer:
             T, e = hit
             val = text[pos:e]
             if T.pat[0] == 'x':
-                # keyword exception: regexp match that is exactly a same-priority string terminal
-                for S in self.strs:
-                    if (S.prio or 0) == (T.prio or 0) and (allowed is None or S.lexname in allowed or S.lexname in self.ignore):
-                        sf = S.flags(self.gflags) & (re.I | re.M | re.S | re.X | re.U | re.L)
-                        tf = T.flags(self.gflags) & (re.I | re.M | re.S | re.X | re.U | re.L)
-                        if sf & ~tf:
-                            continue
-                        if S.compiled(self.gflags).fullmatch(val):
-                            T = S
-                            break
-            if T.lexname not in self.ignore:
+                for S in self.keywords[T.lexname]:
+                    if allowed is not None and S.lexname not in allowed and S.lexname not in self.ignore:
+                        continue
+                    if S.compiled(self.gflags).fullmatch(val):
+                        T = S
+                        break
+            if keep_ignored or T.lexname not in self.ignore:
                 out.append((T.lexname, val, pos, e))
             pos = e
         return out, None
